@@ -106,6 +106,7 @@ var classTable = []classEntry{
 	// topLevel.go / analyzer.go
 	ce("singletonExtractedTwice", `Singleton .* is already being extracted`),
 	ce("duplicateFunction", `Duplicate function definition of '`),
+	ce("nameClash", `Duplicate definition of '.*': the name is already used by `),
 	ce("mainParams", `The '.*' function must have 0 parameters`),
 	ce("mainReturn", `The return type of the '.*' function must be '`),
 	ce("mainMissing", `Missing 'main' function`),
